@@ -72,7 +72,7 @@ def stft_ref(x, fl, fs, style, kaldi, window, D, H, use_log, use_power, include_
     return out
 
 
-def compare_features(got, want, use_log, log_floor, rtol, atol, xscale=0.0):
+def compare_features(got, want, use_log, log_floor, rtol, atol, xscale=0.0, abs_extra=0.0):
     """Linear-domain comparison (DESIGN 3.3). -> (ok, index, detail)"""
     got = np.asarray(got, dtype=np.float64)
     want = np.asarray(want, dtype=np.float64)
@@ -90,7 +90,7 @@ def compare_features(got, want, use_log, log_floor, rtol, atol, xscale=0.0):
     # a filter whose response is below 1e-2 on every bin of the grid only carries the bank's own
     # rounding noise; the absolute term is therefore never smaller than atol * 1e-2 * sum|X|^p
     S = max(float(np.max(np.abs(b))), 1e-2 * xscale)
-    lim = rtol * np.maximum(np.abs(a), np.abs(b)) + atol * max(S, log_floor if use_log else 0.0)
+    lim = rtol * np.maximum(np.abs(a), np.abs(b)) + atol * max(S, log_floor if use_log else 0.0) + abs_extra
     exc = np.abs(a - b) - lim
     i = np.unravel_index(int(np.argmax(exc)), exc.shape)
     if exc[i] > 0:
